@@ -1,0 +1,14 @@
+//go:build verif
+
+// Further contracts for C11 (added after a seeded change that skipped the ownership assignment of MKDIR was not
+// detected): a CREATE, MKDIR or SYMLINK that modified the backend and answers NFS3_OK for a caller whose effective
+// uid is not 0 has had the backend record the caller's effective uid and gid as the owner of the new object - the
+// last ownership assignment issued names exactly that identity, and at least one was issued. Comment-only file.
+package absnfs
+
+// (CREATE: AbsfsNFS.CreateWithContext#owner-recorded together with handleCreate's call-site clause owner-is-caller
+// already give this for CREATE, where NFS3_OK is also the answer to an EXCLUSIVE create of an existing name)
+//@ also NFSProcedureHandler.handleMkdir
+//@ ensures [new-object-owned-by-caller] {C11} result0 == reply && replyIsBytes(reply) && replyStatus(reply) == 0 && old(authCtx.EffectiveUID) != 0 && mutlog != old(mutlog) ==> chowns > old(chowns) && chownuid == old(authCtx.EffectiveUID) && chowngid == old(authCtx.EffectiveGID)
+//@ also NFSProcedureHandler.handleSymlink
+//@ ensures [new-object-owned-by-caller] {C11} result0 == reply && replyIsBytes(reply) && replyStatus(reply) == 0 && old(authCtx.EffectiveUID) != 0 && mutlog != old(mutlog) ==> chowns > old(chowns) && chownuid == old(authCtx.EffectiveUID) && chowngid == old(authCtx.EffectiveGID)
